@@ -114,6 +114,86 @@ def o3(h, st):
     h.done()
 
 
+# O5 variational RDMs with OPAQUE expectation values: index placement as a linear identity ------------------------------------------------
+
+def _pname(term):
+    return "E_" + ("_".join(f"{p}{i}" for i, p in term) if term else "I")
+
+
+@contract("C13", "O5.vqe.get_rdm.placement", level="S", structures=lambda tier: vqe_structures(tier)[:4] + [dict(x, sum_spin=False) for x in vqe_structures(tier)[:2]],
+          targets=[(VQ, "VQESolver.get_rdm"), (ML, "SecondQuantizedMolecule.energy_from_rdms")], max_paths=4)
+def o5(h, st):
+    """the compute backend OPAQUE - the expectation value of every Pauli word P measured on the ansatz state is an arbitrary symbol E_P -: the RDMs assembled by get_rdm,
+    contracted by energy_from_rdms, give  sum_P c_P E_P  with c_P the coefficients of the solver's qubit Hamiltonian (identity of linear forms in the E_P, coefficients
+    to 1e-9): every fermionic term is measured through its own qubit image and placed at the right tensor position, for every state; each word is measured in the basis
+    prescribed by measurement_basis_gates on the prepared state; the spin-resolved form sums to the spin-summed one"""
+    import numpy as np
+    from contracts.C08 import build_solver
+    from tangelo.linq.helpers.circuits.measurement_basis import measurement_basis_gates
+    from tverif.ring import Poly
+    s = build_solver({"mol": st["mol"], "ansatz": "UCCSD", "mapping": st["mapping"], "utd": st["utd"]})
+    mol = s.molecule
+    syms = {}
+    rec = {"sims": [], "bad": []}
+
+    class Opaque:
+        n_shots = None
+
+        def simulate(self, circuit, return_statevector=False, initial_statevector=None, **kw):
+            if return_statevector:
+                rec["prep"] = circuit
+                return None, ("prepared-state",)
+            rec["sims"].append((circuit, initial_statevector))
+            return {"basis": [(g.name, tuple(g.target)) for g in circuit._gates], "init": initial_statevector}, None
+
+        def get_expectation_value_from_frequencies_oneterm(self, term, freqs):
+            exp_basis = [(g.name, tuple(g.target)) for g in measurement_basis_gates(term)]
+            if freqs["basis"] != exp_basis or freqs["init"] != ("prepared-state",):
+                rec["bad"].append(term)
+            nm = _pname(term)
+            if nm not in syms:
+                syms[nm] = h.real(nm) if h.symbolic else float(h.ctx.concrete.get(nm, 0.3))
+            return syms[nm]
+    s.backend = Opaque()
+    s.backend_options = {"noise_model": None}
+    th = np.array([0.11, -0.23][:s.ansatz.n_var_params])
+    sum_spin = st.get("sum_spin", True)
+    one, two = h.call(VQ, "VQESolver.get_rdm", s, th, False, sum_spin)
+    h.check("every Pauli word measured in its own basis on the prepared state", not rec["bad"], detail=str(rec["bad"][:3]))
+    h.check("state prepared once from the ansatz circuit", rec.get("prep") is not None and [g.name for g in rec["prep"]._gates] == [g.name for g in s.ansatz.circuit._gates])
+    if not sum_spin:
+        # spin-resolved tensors: summing the spin blocks gives the spin-summed form, which is then contracted
+        n = mol.n_active_mos
+        o1 = np.zeros((n, n), dtype=object)
+        o2 = np.zeros((n,) * 4, dtype=object)
+        ns = 2 * n
+        for i in range(ns):
+            for j in range(ns):
+                o1[i // 2, j // 2] = o1[i // 2, j // 2] + one[i, j]
+                for k in range(ns):
+                    for l in range(ns):
+                        o2[i // 2, j // 2, k // 2, l // 2] = o2[i // 2, j // 2, k // 2, l // 2] + two[i, j, k, l]
+        one, two = o1, o2
+    e = h.call(ML, "SecondQuantizedMolecule.energy_from_rdms", mol, one, two)
+    ref = 0
+    for term, c in s.qubit_hamiltonian.terms.items():
+        if not term:
+            ref = ref + complex(c).real
+            continue
+        nm = _pname(term)
+        if nm not in syms:
+            syms[nm] = h.real(nm) if h.symbolic else float(h.ctx.concrete.get(nm, 0.3))
+        ref = ref + complex(c).real * syms[nm]
+    if h.symbolic:
+        d = Poly._coerce(e) - Poly._coerce(ref)
+        lf = d.linear_form()
+        worst = max([abs(complex(v)) for v in lf[0].values()] + [abs(complex(lf[1]))]) if lf is not None else None
+        h.check("energy_from_rdms(get_rdm) == sum_P c_P E_P as linear forms in the expectation values (1e-9)", lf is not None and worst < 1e-9, detail=f"largest coefficient difference {worst}")
+    else:
+        h.check("energy_from_rdms(get_rdm) == sum_P c_P E_P", abs(complex(e) - complex(ref)) < 1e-9, detail=f"{e} vs {ref}")
+    h.done()
+
+
 # O4 padding with frozen orbitals: polynomial identities in symbolic RDMs and integrals ---------------------------------------------------
 
 import itertools
